@@ -1,16 +1,17 @@
 """C09 — encryption names the group key of the interval containing the current time."""
 from __future__ import annotations
 import uuid
-import prelude
+import prelude, toycrypto
 
 MANIFEST = {
-    "text": "Lean theorems keyId_of_time / keyId_interval / keyId_unique hold for every clock value; the four index expressions are regenerated from _client.py on every run and re-proved equal to the model (omega; float quotients via trueDivTrunc_small); the real function is swept under a scripted clock at every offset within ±64 ticks of L0/L1/L2 boundaries",
+    "text": "Lean theorems keyId_of_time / keyId_interval / keyId_unique hold for every clock value; the four index expressions are regenerated from _client.py on every run and re-proved equal to the model (omega; float quotients via trueDivTrunc_small); the real function is swept under a scripted clock at every offset within ±64 ticks of L0/L1/L2 boundaries, with cached seed keys at several positions, with an advancing clock, and over histories of calls on one cache that cross a boundary; protectionGke_names_now / protect_blob_names_now lift the index theorems to the public function's model: for EVERY cache state (so after any history) and every plaintext, SID, draws and clock value, a protect answered from the cache emits the encoding of a blob whose key identifier is exactly indices(now) and names the requested root key",
     "note": "Trusted: Lean kernel, extractor's reading of Python integer/float-division semantics (Py.trueDivTrunc validated against CPython every run), that time.time_ns is the only clock source read",
     "technique": "Lean 4 proof over a model regenerated from source (kernel extraction + omega) + correspondence",
 }
 THEOREMS = ["DpapiNg.C09.keyId_of_time", "DpapiNg.C09.keyId_interval", "DpapiNg.C09.indices_in_range",
             "DpapiNg.C09.keyId_unique", "DpapiNg.C09.keyId_monotone", "DpapiNg.C09.float_l0_wrong",
-            "DpapiNg.C09.float_l1_exact", "DpapiNg.C09.float_l2_exact"]
+            "DpapiNg.C09.float_l1_exact", "DpapiNg.C09.float_l2_exact", "DpapiNg.C09.protectionGke_names_now", "DpapiNg.C09.protect_blob_names_now"]
+MODULES = ["DpapiNg.Properties.C09", "DpapiNg.Properties.C09Cache"]
 RULE = ("clock values: every offset within ±64 ticks of L2/L1/L0 boundaries of sampled epochs plus random t in 1970..2200; "
         "each case scripts time.time_ns, calls _get_protection_gke_from_cache on a cache holding a root key and compares "
         "(l0,l1,l2) of the returned envelope with the model; distinct by clock value; non-trivial = within 64 ticks of a boundary")
@@ -20,6 +21,18 @@ TRUSTED = ["KDF scripted as a constant during the clock sweep (key bytes are irr
 B = 360000000000
 EPOCH = 116444736000000000
 RK = uuid.UUID("d778c271-9025-9a82-f6dc-b8960b8ad8c5")
+
+
+def budget_kdf(limit=400):
+    """scripted KDF (zeros) that refuses to be called more often than any derivation needs: a runaway key walk becomes an error"""
+    n = [0]
+
+    def kdf(algorithm, secret, label, context, length):
+        n[0] += 1
+        if n[0] > limit:
+            raise toycrypto.KdfBudgetExceeded(f"more than {limit} KDF calls in one call")
+        return b"\x00" * length
+    return kdf
 
 
 def impl_indices(ns):
@@ -33,7 +46,7 @@ def impl_indices(ns):
             return ns
     old_time, old_kdf = c.time, g.kdf
     c.time = T
-    g.kdf = lambda algorithm, secret, label, context, length: b"\x00" * length
+    g.kdf = budget_kdf()
     try:
         cache = c.KeyCache()
         cache.load_key(b"\x01" * 64, RK)
@@ -59,7 +72,7 @@ def impl_indices_advancing(ns0):
             return shown[-1]
     old_time, old_kdf = c.time, g.kdf
     c.time = T
-    g.kdf = lambda algorithm, secret, label, context, length: b"\x00" * length
+    g.kdf = budget_kdf()
     try:
         cache = c.KeyCache()
         cache.load_key(b"\x01" * 64, RK)
@@ -83,7 +96,7 @@ def seeded_case(ns, seedpos, empty_l2):
             return ns
     old_time, old_kdf = c.time, g.kdf
     c.time = T
-    g.kdf = lambda algorithm, secret, label, context, length: b"\x00" * length
+    g.kdf = budget_kdf()
     try:
         cache = c.KeyCache()
         seed = gen.make_env(l0=seedpos[0], l1=seedpos[1], l2=seedpos[2], l1_key=b"\x11" * 64, l2_key=b"" if empty_l2 else b"\x22" * 64, root_key_identifier=RK)
@@ -163,7 +176,7 @@ def history_indices(times_ns, sds):
             return now[0]
     old_time, old_kdf = c.time, g.kdf
     c.time = T
-    g.kdf = lambda algorithm, secret, label, context, length: b"\x00" * length
+    g.kdf = budget_kdf(4000)
     outs = []
     try:
         cache = c.KeyCache()
